@@ -39,7 +39,7 @@ class EnumEval:
         raise Undecided("no variant %s in %s" % (name, adt))
 
     def call(self, fn, args, depth=0):
-        key = (fn.q, tuple(args))
+        key = (fn.q, repr(args))
         if key in self.memo:
             v = self.memo[key]
             if isinstance(v, Undecided):
@@ -65,6 +65,23 @@ class EnumEval:
             for p in proj:
                 if p == "*":
                     continue
+                if v is None:
+                    break
+                if isinstance(p, list) and p[0] == "f":
+                    if v[0] == "struct" and p[2] in v[1]:
+                        v = v[1][p[2]]
+                        continue
+                    if v[0] == "tuple" and p[2].isdigit() and int(p[2]) < len(v[1]):
+                        v = v[1][int(p[2])]
+                        continue
+                    if v[0] == "agg" and p[2].isdigit() and int(p[2]) < len(v[3]):
+                        v = v[3][int(p[2])]
+                        continue
+                    if v[0] == "some" and p[2] == "0":
+                        v = v[1]
+                        continue
+                if isinstance(p, list) and p[0] == "d":
+                    continue
                 raise Undecided("projection %r in %s" % (p, fn.short))
             if v is None:
                 raise Undecided("unknown local _%d in %s" % (loc, fn.short))
@@ -85,6 +102,8 @@ class EnumEval:
                     return self._run(pb, [], depth + 1)
                 if "zst" in c:
                     return ("unit",)
+                if "alloc" in c or "fn" in c:
+                    return ("opaque",)
                 raise Undecided("constant %r" % (c,))
             loc, proj = op[1]
             return place(loc, proj)
@@ -110,9 +129,16 @@ class EnumEval:
                     env[loc] = place(rv[1][0], rv[1][1])
                 elif k == "discr":
                     v = place(rv[1][0], rv[1][1])
-                    if v[0] != "enum":
+                    if v[0] == "agg":
+                        env[loc] = ("int", self.discr_of(v[1], v[2]))
+                    elif v[0] == "some":
+                        env[loc] = ("int", 1)
+                    elif v[0] == "none":
+                        env[loc] = ("int", 0)
+                    elif v[0] != "enum":
                         raise Undecided("discriminant of non-enum")
-                    env[loc] = ("int", self.discr_of(v[1], v[2]))
+                    else:
+                        env[loc] = ("int", self.discr_of(v[1], v[2]))
                 elif k == "un" and rv[1] == "Not":
                     v = val(rv[2])
                     if v[0] != "bool":
@@ -123,19 +149,22 @@ class EnumEval:
                         if rv[1].endswith("option::Option") and rv[2] == "Some":
                             env[loc] = ("some", val(rv[4][0]))
                             continue
-                        raise Undecided("aggregate with operands %s::%s" % (rv[1], rv[2]))
+                        env[loc] = ("agg", rv[1], rv[2], tuple(val(o) for o in rv[4]))
+                        continue
                     if rv[1].endswith("option::Option") and rv[2] == "None":
                         env[loc] = ("none",)
                     else:
                         env[loc] = ("enum", rv[1], rv[2])
-                elif k == "bin" and rv[1] in ("Eq", "Ne", "Lt", "Le", "Gt", "Ge", "Mul", "Add"):
+                elif k == "bin" and rv[1] in ("Eq", "Ne", "Lt", "Le", "Gt", "Ge", "Mul", "Add", "MulWithOverflow", "AddWithOverflow"):
                     a, c = val(rv[2]), val(rv[3])
                     if a[0] not in ("int", "bool") or c[0] not in ("int", "bool"):
                         raise Undecided("binop on %s" % a[0])
                     x, y = a[1], c[1]
                     r = {"Eq": x == y, "Ne": x != y, "Lt": x < y, "Le": x <= y, "Gt": x > y, "Ge": x >= y}.get(rv[1])
                     if r is None:
-                        env[loc] = ("int", x * y if rv[1] == "Mul" else x + y)
+                        res = ("int", x * y if rv[1].startswith("Mul") else x + y)
+                        # checked arithmetic yields (value, overflowed)
+                        env[loc] = ("tuple", (res, ("bool", False))) if fn.locals[loc].startswith("(") else res
                     else:
                         env[loc] = ("bool", r)
                 elif k == "cast" and rv[1] in ("IntToInt",):
@@ -144,6 +173,8 @@ class EnumEval:
                         env[loc] = ("int", self.discr_of(v[1], v[2]))
                     else:
                         env[loc] = v
+                elif k in ("tuple", "array"):
+                    env[loc] = ("tuple", tuple(val(o) if (o[0] == "k" or o[1][0] in env) else ("opaque",) for o in rv[1]))
                 else:
                     raise Undecided("rvalue %s in %s" % (k, fn.short))
             t = blk["t"]
@@ -171,6 +202,14 @@ class EnumEval:
                 b = t[2]
             elif k == "assert":
                 b = t[3]
+            elif k == "call" and (t[1].get("q") or "").endswith("fmt::format") or (k == "call" and "fmt::Arguments" in (t[1].get("q") or "")) or (k == "call" and "fmt::rt::Argument" in (t[1].get("q") or "")):
+                # building an error message: the value is irrelevant
+                if t[3][1]:
+                    raise Undecided("call into projection")
+                env[t[3][0]] = ("opaque",)
+                if t[4] is None:
+                    raise Undecided("diverging call")
+                b = t[4]
             elif k == "call":
                 q = t[1].get("q") or ""
                 dest = t[3]
